@@ -109,6 +109,10 @@ pub struct ShardStats {
     pub violations: Vec<Violation>,
     pub diagnostics: Vec<String>,
     pub log_hash: crate::Fnv,
+    /// order-independent digests (wrapping sums of mixed values): merging shards by addition gives
+    /// a value that does not depend on the number of shards
+    pub seed_sum: u64,
+    pub outcome_sum: u64,
 }
 
 impl ShardStats {
@@ -129,6 +133,8 @@ impl ShardStats {
             violations: Vec::new(),
             diagnostics: Vec::new(),
             log_hash: crate::Fnv::new(),
+            seed_sum: 0,
+            outcome_sum: 0,
         }
     }
     pub fn run_seed(&mut self, seed: u64) {
@@ -137,9 +143,13 @@ impl ShardStats {
         }
         self.last_seed = seed;
         self.evaluations += 1;
+        let mut st = seed;
+        self.seed_sum = self.seed_sum.wrapping_add(crate::rng::splitmix64(&mut st));
     }
     pub fn nontrivial(&mut self, fingerprint: u64) {
         self.nontrivial_runs += 1;
+        let mut st = fingerprint;
+        self.outcome_sum = self.outcome_sum.wrapping_add(crate::rng::splitmix64(&mut st));
         if self.fingerprints.len() < FP_CAP {
             self.fingerprints.insert(fingerprint);
         } else if !self.fingerprints.contains(&fingerprint) {
@@ -216,6 +226,8 @@ impl ShardStats {
             ),
             ("diagnostics", Json::arr_str(&self.diagnostics)),
             ("log_hash", Json::str(&format!("{:016x}", self.log_hash.finish()))),
+            ("seed_sum", Json::str(&format!("{:016x}", self.seed_sum))),
+            ("outcome_sum", Json::str(&format!("{:016x}", self.outcome_sum))),
             ("wall_s", Json::Float(self.start.elapsed().as_secs_f64())),
         ]);
         std::fs::write(format!("{}/shard-{}.json", args.out, args.shard), j.to_string())?;
